@@ -26,6 +26,9 @@ TABLE = {
     OPT + '::map_or_else': ('O', 'Some', 'maporelse'),   # (x, d, f): Some(v) -> f(v) ; None -> d()
     'core::bool::then': ('B', None, 'then'),             # b.then(f): true -> Some(f()) ; false -> None
 }
+# std::panic::catch_unwind(f): Ok(f()) when f returns, Err(payload) when it unwinds - the unwind edge of the call of f
+# leads back into normal control flow
+CATCH = ('std::panic::catch_unwind',)
 # combinators without a function argument: (subject kind, how)
 PLAIN = {
     OPT + '::flatten': ('O', 'flatten'),                 # Some(x) -> x ; None -> None
@@ -66,6 +69,17 @@ def desugar(crate, body):
         if t['k'] != 'call' or blk['cleanup'] or t.get('target') is None:
             continue
         name = strip_generics(t.get('callee_full', ''))
+        if name in CATCH and len(t['args']) == 1:
+            if T is None:
+                T = Terms(body)
+            f = norm(T.operand_term(t['args'][0], bi, len(blk['stmts'])))
+            wrapped = False
+            if f[0] == 'adt' and f[1].endswith('AssertUnwindSafe') and f[3]:
+                f = norm(f[3][0][1])
+                wrapped = True
+            if f[0] == 'closure' and (not wrapped or t['args'][0].get('k') in ('copy', 'move')):
+                plans.append((bi, name, 'C', wrapped, 'catch'))
+            continue
         if name in PLAIN:
             kind, how = PLAIN[name]
             if len(t['args']) == (2 if how in ('ok_or', 'unwrap_or') else 1):
@@ -112,6 +126,25 @@ def desugar(crate, body):
         at = t.get('at')
         frame = blk.get('frame', ())
         dest, target, unwind = t['dest'], t['target'], t['unwind']
+        if kind == 'C':
+            fop = t['args'][0]
+            if variant:     # AssertUnwindSafe(closure): the closure is field 0
+                fop = {'k': 'move', 'place': {'l': fop['place']['l'], 'p': fop['place']['p'] + [['field', 0, '0', '?']]}}
+            r = new_local()
+            b_done = new_block([{'k': 'assign', 'place': dest, 'rv': _agg('Ok', [_mv(r)]), 'at': at, 'synthetic': 'desugar'}],
+                               {'k': 'goto', 'target': target}, frame)
+            b_caught = new_block([{'k': 'assign', 'place': dest, 'rv': _agg('Err', [{'k': 'const', 'ty': 'alloc::boxed::Box<dyn core::any::Any + Send>', 'val': None, 'repr': 'panic payload'}]),
+                                   'at': at, 'synthetic': 'desugar'}], {'k': 'goto', 'target': target, 'caught_unwind': True}, frame)
+            tup = new_local('()')
+            blocks.append({'cleanup': False, 'frame': frame, 'stmts': [_assign(tup, {'k': 'agg', 'ak': 'tuple', 'ops': []}, at)],
+                           'term': {'k': 'call', 'func': {'k': 'const', 'ty': '?', 'fn': 'core::ops::function::FnOnce::call_once',
+                                                          'fn_full': '<F as core::ops::function::FnOnce<Args>>::call_once', 'fn_args': [], 'zst': True, 'repr': 'call_once'},
+                                    'callee': 'core::ops::function::FnOnce::call_once', 'callee_full': '<F as core::ops::function::FnOnce<Args>>::call_once',
+                                    'callee_args': [], 'callee_local': False, 'callee_name': 'call_once', 'callee_trait': 'core::ops::function::FnOnce',
+                                    'resolved_kind': 'unresolved', 'args': [fop, _mv(tup)], 'dest': {'l': r, 'p': []}, 'dest_ty': '?',
+                                    'target': b_done, 'unwind': b_caught, 'at': at, 'at_root': t.get('at_root'), 'catch_unwind': True}})
+            blk['term'] = {'k': 'goto', 'target': len(blocks) - 1, 'at': at}
+            continue
         subj = new_local({'R': RES + '<?, ?>', 'O': OPT + '<?>', 'B': 'bool'}[kind])
         blk['stmts'].append(_assign(subj, {'k': 'use', 'op': t['args'][0]}, at))
 
